@@ -1,5 +1,6 @@
 """C08 — fetch_diff is a faithful and minimal difference."""
 from common import freephil, enc
+import mgen
 from props import _fetch
 
 LEVEL = "proof"
@@ -15,7 +16,9 @@ LEVEL_NOTE = ("closed form (diff, minimality, restore, fixed point) proved for f
               "(re-merge reorders a master-provided instance), D42 (floats equal to ten significant digits).")
 TECHNIQUE = "Lean 4 theorems on the diff-mode fetch model (minimality, self-diff empty, restore partial) + differential correspondence + oracle"
 RULE = ("masters x working parameter sets reachable by fetch from generated sources (added, repeated and template-equal instances of "
-        ".multiple objects, choices, Auto/None, non-canonical spellings); non-trivial = the difference is non-empty")
+        ".multiple objects, choices, Auto/None, non-canonical spellings); non-trivial = the difference is non-empty; "
+        "impl-only stream: the same clauses on masters reached by a route from their text (used before, then derived by fetch / "
+        "format of layered defaults, copy, deepcopy, pickle, print+parse)")
 ASSUMPTIONS = ["equality of working sets = equal extract() dumps"]
 
 
@@ -31,7 +34,9 @@ def check(m, ss, tree):
         return "fetch_diff raised %s: %s" % (type(e).__name__, str(e)[:100]), None
     try:
         # minimal: every definition in D differs from the master default
-        md = {l.path: l.object for l in m.all_definitions()}
+        md = {}
+        for l in m.all_definitions():
+            md.setdefault(l.path, l.object)     # the declaration; further occurrences carry neither .type nor .multiple
         for l in d.all_definitions():
             mo = md.get(l.path)
             if mo is not None and not mo.multiple:
@@ -121,16 +126,6 @@ def tool_outputs(m, mt, srcs, ss):
     return None
 
 
-def relists_master_instance(tree, srcs):
-    """finding class D10: a source repeats a further master occurrence of a multiple definition"""
-    for n in tree:
-        if n["k"] == "d" and n["multiple"] and n["further"]:
-            return True
-        if n["k"] == "s" and relists_master_instance(n["kids"], srcs):
-            return True
-    return False
-
-
 def float_within_print_precision(m, ss):
     """finding class D42: a float parameter whose working value differs from the master default only beyond the ten
     significant digits that extract_format prints (fetch_diff compares those renderings)"""
@@ -159,8 +154,135 @@ def float_within_print_precision(m, ss):
     return False
 
 
+RESTORE_CLAUSES = ("merging the difference", "difference of the difference-restored")
+
+
+def finding_classes(m, ss, what):
+    """Both findings on the unchanged tree are failures of the restore clauses (the re-merged difference is not W); neither
+    makes a difference non-minimal nor the difference of the master's own defaults non-empty, so they cover nothing there."""
+    if not what.startswith(RESTORE_CLAUSES):
+        return []
+    cls = []
+    if master_has_nested_multiple(m):
+        cls.append("D8")
+    if master_relists_instance(m):
+        cls.append("D10")
+    if float_within_print_precision(m, ss):
+        cls.append("D42")
+    return cls
+
+
+ROUTES = ("fetch", "fetch", "fetch", "format", "copy", "deepcopy", "pickle", "reparse")
+
+
+def walk_route(m, steps):
+    """A master need not be a freshly parsed text: the statement quantifies over every well-formed master.  A *route* is the
+    history by which the master object of a case is reached from its parsed text:
+      use      -- the master serves for what it is made for (all four clauses are evaluated with some sources; outcome dropped)
+      fetch    -- defaults are layered: the result of master.fetch(sources) is the master from now on
+      format   -- the same through Python objects: master.format(master.fetch(sources).extract())
+      copy / deepcopy / pickle -- the master object is duplicated / stored and loaded
+      reparse  -- the master is printed with all attributes and parsed again
+    returns the master at the end of the route"""
+    import copy
+    import pickle
+    for st in steps:
+        op = st["op"]
+        ss = [freephil.parse(input_string=s) for s in st.get("sources", ())]
+        if op == "use":
+            check(m, ss, None)
+        elif op == "fetch":
+            m = m.fetch(sources=ss)
+        elif op == "format":
+            m = m.format(python_object=m.fetch(sources=ss).extract())
+        elif op == "copy":
+            m = m.copy()
+        elif op == "deepcopy":
+            m = copy.deepcopy(m)
+        elif op == "pickle":
+            m = pickle.loads(pickle.dumps(m, st.get("protocol", 2)))
+        elif op == "reparse":
+            m = freephil.parse(input_string=m.as_str(attributes_level=3))
+        else:
+            raise ValueError(op)
+    return m
+
+
+def gen_route(rng, tree, srcs):
+    """use the parsed master, derive the next master from it, possibly once more; the sources of the derivation steps are
+    valid for the master (a refused default would leave nothing to evaluate)"""
+    steps = []
+    for k in range(rng.choice([1, 1, 2])):
+        if k > 0 or rng.random() < 0.85:
+            steps.append({"op": "use", "sources": list(srcs) if k == 0 else
+                          [mgen.SourceGen(rng, unknown=False).text(tree) for _ in range(rng.choice([0, 1, 2]))]})
+        op = rng.choice(ROUTES)
+        st = {"op": op}
+        if op in ("fetch", "format"):
+            st["sources"] = [mgen.SourceGen(rng, valid_only=True, unknown=False, disabled=False).text(tree)
+                             for _ in range(rng.choice([1, 1, 2]))]
+        if op == "pickle":
+            st["protocol"] = rng.choice([0, 2, 4])
+        steps.append(st)
+    return steps
+
+
+def master_relists_instance(m):
+    """finding class D10, read off the master object itself (a derived master has no generator tree): a .multiple object
+    with a further active occurrence in the same master scope"""
+    seen = {}
+    for o in m.objects:
+        if o.is_disabled:
+            continue
+        first = seen.setdefault(o.name, o)
+        if first is not o and first.multiple and first.is_definition == o.is_definition:
+            return True
+        if o.is_scope and master_relists_instance(o):
+            return True
+    return False
+
+
+def master_has_nested_multiple(m, inside=False):
+    for o in m.objects:
+        if o.is_disabled:
+            continue
+        if o.multiple and inside:
+            return True
+        if o.is_scope and master_has_nested_multiple(o, inside or bool(o.multiple)):
+            return True
+    return False
+
+
+def routed(ctx, rng, tree, mt, srcs):
+    """impl-only stream: the four clauses on a master reached by a route (the Lean model takes master *texts*; a derived master
+    carries template flags and object history that no text has)"""
+    steps = gen_route(rng, tree, srcs)
+    srcs2 = [mgen.SourceGen(rng).text(tree) for _ in range(rng.choice([0, 1, 1, 2]))]
+    case = {"master": mt, "route": steps, "sources": srcs2}
+    try:
+        m = walk_route(freephil.parse(input_string=mt), steps)
+        m.fetch().extract()
+    except (RuntimeError, freephil.Sorry):
+        # a derivation step the library refuses, or a derived master whose own defaults cannot be extracted (two starred
+        # alternatives layered over a single choice): not a well-formed master, nothing to evaluate
+        ctx.count("route_refused")
+        return
+    ss = [freephil.parse(input_string=s) for s in srcs2]
+    f, d = check(m, ss, None)
+    ctx.case((mt, repr(steps), tuple(srcs2)), nontrivial=d is not None and d.as_str() != "")
+    ctx.count("routed_master")
+    for st in steps:
+        if st["op"] != "use":
+            ctx.count("route:" + st["op"])
+    if f:
+        ctx.fail(case, "[master reached by " + "/".join(st["op"] for st in steps) + "] " + f,
+                 finding=finding_classes(m, ss, f), model_violates=None)
+
+
 def run(ctx):
     rng = ctx.rng
+    import random
+    rng_routes = random.Random(ctx.seed * 1000003 + 8)     # own stream: the base stream stays what it was
     n = ctx.scale(1200, 30000, 6000)
     cases, reqs, impls = [], [], []
     for i in range(n):
@@ -180,14 +302,7 @@ def run(ctx):
         ctx.count("nested_multiples" if isnested else "plain")
         case = {"master": mt, "sources": srcs}
         if f:
-            cls = []
-            if isnested:
-                cls.append("D8")
-            if relists_master_instance(tree, srcs):
-                cls.append("D10")
-            if float_within_print_precision(m, ss):
-                cls.append("D42")
-            ctx.fail(case, f, finding=cls, model_violates=None)
+            ctx.fail(case, f, finding=finding_classes(m, ss, f), model_violates=None)
         # correspondence: fetch_diff of the raw sources, and of the printed working set
         reqs.append(_fetch.fetch_req(mt, srcs, diff=True))
         impls.append(_fetch.fetch_impl(m, [freephil.parse(input_string=s_) for s_ in srcs], diff=True))
@@ -200,6 +315,8 @@ def run(ctx):
             cases.append(case)
         except BaseException:
             pass
+        if i % (4 if ctx.mode == "search" else 2) == 1:      # the deep pass is time-boxed: keep most of it for the modelled stream
+            routed(ctx, rng_routes, tree, mt, srcs)
         if i % 250 == 0 and d is not None:
             ctx.sample({"master": mt, "sources": srcs, "difference": d.as_str()})
     if reqs and ctx.mode != "impl-only":
@@ -208,14 +325,14 @@ def run(ctx):
 
 def finding_still_fails(f):
     w = f["witness"]
-    m = freephil.parse(input_string=w["master"])
+    m = walk_route(freephil.parse(input_string=w["master"]), w.get("route", ()))
     r, _ = check(m, [freephil.parse(input_string=s) for s in w["sources"]], None)
     return r is not None
 
 
 def replay(payload):
     c = payload["failure"]["case"]
-    m = freephil.parse(input_string=c["master"])
+    m = walk_route(freephil.parse(input_string=c["master"]), c.get("route", ()))
     r, d = check(m, [freephil.parse(input_string=s) for s in c["sources"]], None)
     print(r)
     return r is None
